@@ -98,14 +98,14 @@ func registerAll() {
 	const tCFG = "CFG path rules on go/ssa (must-precede, edge dominance, loop-iteration coverage, error-edge reachability)"
 	propTable["C01"] = &PropSpec{
 		ID:          "C01",
-		Rules:       []string{"L8", "L7", "L9", "R6", "B1", "L6", "R1", "N1", "N2", "N4", "L16"},
+		Rules:       []string{"L8", "L7", "L9", "R6", "B1", "L6", "R1", "R7", "N1", "N2", "N4", "L16"},
 		Explanation: "structural necessary conditions of sequence behaviour: every index-out-of-bounds rejection is taken exactly when the request is out of range for the operation (index >= count for access, index > count for insertion; decided by case analysis over the three orderings of index and bound) and cannot be passed when out of range; whatever replaces the root carries the id read from the previous root (so the array can always be reopened by its identifier); every write of an element list or child header table is accompanied on every success path by the matching size / count / cumulative-count update; after a child mutation every success path evaluates the split / merge decision and refreshes the parent's header copy, and the handle evaluates root.IsFull and single-child promotion; out-of-range requests are rejected before any effect; elements are materialised with the array's inline limit; every slab mutated or created by an operation is stored (or its parent notified) before the operation returns, so a later reopen by the root identifier sees the same sequence; the index kept for nested containers is deleted with the element it tracks and reset by a bulk pop (a stale entry makes the next in-range Insert fail); a nested container's parent-updater callback writes into the array only after confirming, by value id, that the slot still holds that container. Cached sizes start from the encoded prefix of the object's kind and state wherever they are established or re-based (a wrong prefix wraps around on the next re-basing and makes an in-range request fail in splitRoot). An element overwritten with the very container it already holds is recognised before the overwritten storable is uninlined (otherwise the slab just stored as the new element is un-inlined under the parent).",
 		NotDecided:  "that returned elements equal the sequence model: index routing (linear scan / binary search over cumulative counts), split/merge/borrow arithmetic and 'in-range requests never fail' are value-dependent and not decided statically.",
 		Technique:   "co-update path rules, must-pass-through rules and reject-before-effect typestate over go/ssa",
 	}
 	propTable["C02"] = &PropSpec{
 		ID:          "C02",
-		Rules:       []string{"L10", "L7", "L9", "R6", "K1", "K2", "L6", "R1", "N2", "N4", "L16", "X7"},
+		Rules:       []string{"L10", "L7", "L9", "R6", "K1", "K2", "L6", "R1", "R7", "N2", "N4", "L16", "X7", "D4"},
 		Explanation: "structural necessary conditions of dictionary behaviour: the element count changes exactly on (Set succeeded, no existing value) and on successful Remove; digests, elements and cached sizes are co-updated on every success path; the split / merge decision and header refresh follow every child mutation; absent keys and the collision limit are reported before any effect; keys and values are materialised with the key limit and a value limit derived from the same element's key; collision groups and element lists report their entry counts; every slab mutated or created is stored before the operation returns; a nested container's parent-updater callback writes into the map only after confirming, by value id, that the slot still holds that container. Cached sizes start from the encoded prefix of the object's kind and state wherever they are established or re-based (a wrong prefix wraps around on the next re-basing and makes an in-range request fail in splitRoot). Decoded element lists own their digest slices. An element overwritten with the very container it already holds is recognised before the overwritten storable is uninlined (otherwise the slab just stored as the new element is un-inlined under the parent).",
 		NotDecided:  "dictionary equivalence, digest routing (binary search over sorted digests), collision-group semantics: value-dependent.",
 		Technique:   "control-dependence and co-update path rules, reject-before-effect typestate",
@@ -147,28 +147,28 @@ func registerAll() {
 	}
 	propTable["C10"] = &PropSpec{
 		ID:          "C10",
-		Rules:       []string{"R4", "R5", "R1", "L8", "N1", "N2", "N4", "L9", "L6", "L12", "L16", "X7", "L18"},
+		Rules:       []string{"R4", "R5", "R1", "R7", "L8", "N1", "N2", "N4", "L9", "L6", "L12", "L16", "X7", "L18", "L15"},
 		Explanation: "every exported mutator of Array/OrderedMap (computed from may-effects on slab state over a closure-granular call graph) calls notifyParentIfNeeded on every success path (extra-data-only mutators may store the standalone root on the not-inlined edge instead); every child handed out by lookup/mutable iteration or stored by Set/Insert passes setCallbackWithChild on every success path with the container's own inline limit (array: maxInlineArrayElementSize; map: maxInlineMapValueSize of that element's key storable size); read-only iterators arm the mutation callback; whatever replaces a container's root carries the id read from the previous root before any id change, and ValueID does not depend on the inlined state. Parent-updater callbacks re-validate the child's identity (address and index) before writing, so a mutation reaches the slot that holds this child and no other. Cached sizes start from the encoded prefix of the object's kind and state wherever they are established or re-based (a wrong prefix wraps around on the next re-basing and makes an in-range request fail in splitRoot). Decoded children own their digest slices (a reloaded sibling is not disturbed by a mutation through another child's handle). An element overwritten with the very container it already holds is recognised before the overwritten storable is uninlined (otherwise the slab just stored as the new element is un-inlined under the parent). For every slab size a slab can hold no more inlined containers than the one-byte inlined-extra-data index addresses (else a later commit cannot encode it; known finding).",
 		NotDecided:  "that the callback finds the right element after arbitrary parent restructuring (mutableElementIndex arithmetic), 'inlined exactly when it fits' (value-dependent), validity of ancestors.",
 		Technique:   "must-pass-through path rule over go/ssa CFG with interprocedural must-notify summaries; may-effect summaries to compute the mutator set; value-flow checks on callback arguments and root ids",
 	}
 	propTable["C11"] = &PropSpec{
 		ID:          "C11",
-		Rules:       []string{"R7", "N1", "N2", "N4", "N3", "R3"},
+		Rules:       []string{"R7", "N1", "N2", "N4", "N3", "R3", "X7"},
 		Explanation: "every Storable returned by an exported Array/OrderedMap method is the result of uninlineStorableIfNeeded (so a detached inlined child becomes a stored standalone slab) and that helper uninlines both slab kinds; the mutableElementIndex entry of a removed/overwritten child is deleted, guarded only by identity tests; parent-updater callbacks re-set the child only on paths that passed the true edge of a ValueID.equal test and after a fresh lookup; parentUpdater is assigned only by setParentUpdater and cleared only on the not-found edge of its own invocation. The identity predicate ValueID.equal(SlabID) is the conjunction of address equality and index equality on the right halves of the value id; a bulk pop resets the child index. An element overwritten with the very container it already holds is recognised before the overwritten storable is uninlined (otherwise the slab just stored as the new element is un-inlined under the parent).",
 		NotDecided:  "that re-validation compares the right element after arbitrary histories; equality of identity after reattachment.",
 		Technique:   "value-flow on return operands, control-dependence slices, edge-restricted reachability in callback closures",
 	}
 	propTable["C06"] = &PropSpec{
 		ID:          "C06",
-		Rules:       []string{"L1", "L2", "L16", "L7", "L8"},
+		Rules:       []string{"L1", "L2", "L16", "L19", "L7", "L8"},
 		Explanation: "each prefix / stride size constant equals, by value, the number of bytes its encoder writes outside child elements and extra-data sections (abstract interpretation of every slab and element encoder: fixed-width writes, per-entry loop bytes, spliced helper encoders, two-pass element buffer emitted exactly once); the only conditional group of a data-slab encoder is the sibling link and it is exactly the difference between the non-root and root constants (the documented 16-byte saving); the compact inlined-map form has the same inlined prefix and no fixed per-element bytes, so it can only be shorter; decoders start a decoded slab's size from the same prefix getPrefixSize() returns for that state (root / non-root / inlined); every write of an element list or the inlined flag is accompanied by a size update on all success paths. Every cached size that is established or re-based (slab literals, absolute and re-basing assignments, computed size functions) carries, in its constant part, the encoded prefix of the object kind in the state before / after (root, non-root, inlined for data slabs; one prefix plus whole per-entry constants for every other kind).",
 		NotDecided:  "that the incremental += / -= bookkeeping sums to the same total on every history (value-level); honesty of client Storable.ByteSize().",
 		Technique:   "abstract interpretation of encoder write widths over go/ssa, per-state constant-part evaluation of decoder size expressions, co-update path rule",
 	}
 	propTable["C07"] = &PropSpec{
 		ID:          "C07",
-		Rules:       []string{"L3", "L4", "L11", "L15", "L1", "X1"},
+		Rules:       []string{"L3", "L4", "L11", "L15", "L20", "L1", "X1"},
 		Explanation: "header flags: each setter/getter pair uses the same byte and single-bit mask, disjoint from type and version bits; each slab encoder sets each flag exactly under the state it describes (root <=> extra data, has-pointers <=> HasPointer(), next <=> sibling link, any-size <=> anySize, inlined-slabs <=> collected extra data) and the V1 decoders and raw-bytes queries consult exactly those flags; vocabularies coincide: every CBOR tag emitted is dispatched (in-package or, by table, by the client decoder) and vice versa, tag numbers are distinct, slab kinds emitted equal kinds dispatched by DecodeSlab, encoders emit version 1 and decoders accept exactly versions 0 and 1; encoders use fixed-width heads matching the size constants; decode dispatch covers every element kind. The key under which the encoder shares one extra-data entry between inlined containers depends on the encoded type information and on every field name, so containers of different type never share an entry.",
 		NotDecided:  "byte-for-byte round trip of arbitrary nested content, compact-map ordering, rejection of trailing bytes.",
 		Technique:   "mask/guard checks on go/ssa, AST vocabulary comparison of encoder and decoder sides, encoder width interpretation",
@@ -196,7 +196,7 @@ func registerAll() {
 	}
 	propTable["C13"] = &PropSpec{
 		ID:          "C13",
-		Rules:       []string{"X4", "I2", "I3", "X1", "X8", "R5", "R6"},
+		Rules:       []string{"X4", "I2", "I3", "I4", "X1", "X8", "R5", "R6", "L17"},
 		Explanation: "every exit of an iterator Next method that hands out an element is preceded on all paths by a cursor advance; range constructors reject start > end and bounds beyond the count before building an iterator and leave no trace; Next/NextKey/NextValue of each iterator type write the same cursor fields (no flavour can skip or repeat relative to its siblings); every slab/element kind is handled by the iterator type switches (no silent skip); mutable iteration hands out children with the parent callback installed, read-only iterators arm the mutation error on every element. A comma-ok downcast of a slab / element / element-list value to one family member never returns success early on the not-ok edge (no member of the family is silently skipped while looking for the next element).",
 		NotDecided:  "exactly-once, canonical order and the loaded-subset subsequence property (value-level).",
 		Technique:   "may-effect comparison of sibling methods, type-switch exhaustiveness, must-pass-through path rule",
